@@ -27,8 +27,15 @@ pub struct MDBInMemoryShard {
 impl MDBInMemoryShard {
     pub fn add_cas_block(&mut self, cas_block_contents: MDBCASInfo) -> Result<()> {
         let dest_content_v = Arc::new(cas_block_contents);
-        self.cas_content
-            .insert(dest_content_v.metadata.cas_hash, dest_content_v.clone());
+        if let Some(old) = self
+            .cas_content
+            .insert(dest_content_v.metadata.cas_hash, dest_content_v.clone())
+        {
+            // Replacing an entry: take the replaced entry's contribution back out of the running size.
+            self.current_shard_file_size -= old.num_bytes()
+                + (size_of::<u64>() + size_of::<u32>()) as u64
+                + (old.chunks.len() * (size_of::<u64>() + 2 * size_of::<u32>())) as u64;
+        }
 
         for (i, chunk) in dest_content_v.chunks.iter().enumerate() {
             self.chunk_hash_lookup
@@ -45,7 +52,10 @@ impl MDBInMemoryShard {
         self.current_shard_file_size += file_info.num_bytes();
         self.current_shard_file_size += (size_of::<u64>() + size_of::<u32>()) as u64;
 
-        self.file_content.insert(file_info.metadata.file_hash, file_info);
+        if let Some(old) = self.file_content.insert(file_info.metadata.file_hash, file_info) {
+            // Replacing an entry: take the replaced entry's contribution back out of the running size.
+            self.current_shard_file_size -= old.num_bytes() + (size_of::<u64>() + size_of::<u32>()) as u64;
+        }
 
         Ok(())
     }
@@ -97,7 +107,9 @@ impl MDBInMemoryShard {
             num_bytes += (size_of::<u64>() + size_of::<u32>()) as u64;
         }
 
-        num_bytes += ((size_of::<u64>() + 2 * size_of::<u32>()) * self.chunk_hash_lookup.len()) as u64;
+        // The serialized chunk lookup table has one entry per chunk of every xorb.
+        let n_chunk_entries: usize = self.cas_content.values().map(|c| c.chunks.len()).sum();
+        num_bytes += ((size_of::<u64>() + 2 * size_of::<u32>()) * n_chunk_entries) as u64;
 
         self.current_shard_file_size = num_bytes;
     }
